@@ -94,6 +94,12 @@ fn head_coq(h: &Head, rm: &[u64]) -> String {
         gn(h.ent), gon(h.room), gz(h.date), gb(h.has_node), gb(h.too_big), gopt(&old), glist(&rm.iter().map(|k| gn(*k)).collect::<Vec<_>>()))
 }
 
+/// a MutationQuery around hand-built InsertEntity values (validate_mutation does not read the parser)
+fn mutation_query(rig: &Rig, ies: Vec<InsertEntity>, date: i64) -> MutationQuery {
+    let parser = MutationParser::parse("mutate { ns.E2 { name:\"x\" } }", &rig.dm.dm).unwrap();
+    MutationQuery { mutate_entities: ies, mutation_parser: Arc::new(parser), date }
+}
+
 async fn run_write(rig: &Rig, case: u64, w: &World, me: u64, h: &Head, nadd: u64, rm: &[u64]) -> Vec<i64> {
     let dm = &rig.dm;
     let keys = &rig.keys;
@@ -106,29 +112,38 @@ async fn run_write(rig: &Rig, case: u64, w: &World, me: u64, h: &Head, nadd: u64
         n.sign(keys.sk(a)).unwrap();
         n
     });
-    let node = if h.has_node { Some(Node { id, room_id: room_uid, cdate: h.date - 9, mdate: h.date, _entity: short.clone(), _json: json, ..Default::default() }) } else { None };
+    // as create_node_to_mutate does: an update starts from a copy of the stored row (it carries the old
+    // author's key and signature until the caller signs), a creation from an empty row
+    let node = if h.has_node { Some(match &old_node {
+        Some(o) => { let mut n = o.clone(); n.room_id = room_uid; n.mdate = h.date; n._json = json; n }
+        None => Node { id, room_id: room_uid, cdate: h.date - 9, mdate: h.date, _entity: short.clone(), _json: json, ..Default::default() },
+    }) } else { None };
     let stored_refs: Vec<Edge> = rm.iter().enumerate().map(|(i, k)| {
         let mut e = Edge { src: id, src_entity: short.clone(), label: "41".into(), dest: cuid(case, 300 + i as u64), cdate: h.date - 5, ..Default::default() };
         e.sign(keys.sk(*k)).unwrap();
         e
     }).collect();
     let adds: Vec<Edge> = (0..nadd).map(|i| Edge { src: id, src_entity: short.clone(), label: "42".into(), dest: cuid(case, 200 + i), cdate: h.date, ..Default::default() }).collect();
-    let mut ie = InsertEntity {
+    // the rows as the caller signs them (what a peer receives), signed here independently of the local path
+    let mut ra = local_auth(w, me);
+    let sent_opt = node.clone().map(|mut n| { n.sign(&ra.signing_key).unwrap(); n });
+    let adds_signed: Vec<Edge> = adds.iter().map(|e| { let mut e = e.clone(); e.sign(&ra.signing_key).unwrap(); e }).collect();
+    let ie = InsertEntity {
         name: ent_name(h.ent),
         node_to_mutate: NodeToMutate { id, date: h.date, entity: ent_name(h.ent), room_id: room_uid, node, old_node: old_node.clone(), ..Default::default() },
         edge_deletions: stored_refs.clone(),
         edge_insertions: adds,
         ..Default::default()
     };
-    // ---- local verdict (the caller's key signs everything first, as validate_mutation does)
-    let ra = local_auth(w, me);
-    ie.sign_all(&ra.signing_key).unwrap();
+    // ---- local verdict: the whole local path, RoomAuthorisations::validate_mutation on the unsigned request
+    let mut mq = mutation_query(rig, vec![ie], h.date);
     verif_clock::set(h.date);
-    let local = match ra.validate_entity_mutation(&mut ie, &keys.vk(me)) { Ok(_) => 0, Err(e) => verdict(&e) };
+    let local = match ra.validate_mutation(&mut mq) { Ok(_) => 0, Err(e) => verdict(&e) };
     verif_clock::clear();
+    let ie = mq.mutate_entities.pop().unwrap();
     let rid = match (h.has_node, h.room) { (true, Some(r)) => r, _ => return vec![local, -1, 0, 0] };
-    // ---- the rows the peer receives: those the local path produced; where it refused, the rows it would have written
-    let sent = ie.node_to_mutate.node.clone().unwrap();
+    // ---- the rows the peer receives; the tombstones: those the local path produced, else those it would have written
+    let sent = sent_opt.unwrap();
     let tombs: Vec<EdgeDeletionEntry> = if local == 0 { ie.edge_deletions_log.iter().map(clone_edel).collect() }
         else { stored_refs.iter().map(|e| EdgeDeletionEntry::build(cuid(case, rid), e, h.date, &ra.signing_key)).collect() };
     assert_eq!(tombs.len(), stored_refs.len());
@@ -139,12 +154,12 @@ async fn run_write(rig: &Rig, case: u64, w: &World, me: u64, h: &Head, nadd: u64
         let _ = rig.db.delete_edges(tombs.iter().map(clone_edel).collect()).await;
     }
     push_node(rig, case, rid, &sent).await;
-    if !ie.edge_insertions.is_empty() && Sig::edges_check(ie.edge_insertions.clone()).is_ok() {
-        let _ = rig.db.add_edges(cuid(case, rid), ie.edge_insertions.clone()).await;
+    if !adds_signed.is_empty() && Sig::edges_check(adds_signed.clone()).is_ok() {
+        let _ = rig.db.add_edges(cuid(case, rid), adds_signed.clone()).await;
     }
     let d = rig.raw_dump(case).await;
     let node_in = d.nodes.contains(&sent._signature) as i64;
-    let adds_in = ie.edge_insertions.iter().filter(|e| d.edges.contains(&e.signature)).count() as i64;
+    let adds_in = adds_signed.iter().filter(|e| d.edges.contains(&e.signature)).count() as i64;
     let tombs_in = tombs.iter().filter(|t| d.edels.contains(&t.signature)).count() as i64;
     vec![local, node_in, adds_in, tombs_in]
 }
@@ -171,6 +186,56 @@ fn gen_head(rng: &mut Rng, w: &World, keys: &Keys, case: u64) -> (u64, Head) {
     }
     let (me, ent, old, date) = best.unwrap();
     (me, Head { ent, room, date, has_node: !rng.chance(1, 30), too_big: rng.chance(1, 30), old })
+}
+
+// ------------------------------------------------------------------ rows at the size limit
+/// a caller with every right creates / updates a row whose SIGNED size is `target` bytes: the whole local
+/// path (validate_mutation on the unsigned request) against the peer's validate_node on the signed row
+fn case_size(rig: &Rig, case: u64, update: bool, target: i64) -> Case {
+    use discret::verif_hooks::database::node::NodeToInsert;
+    let dm = &rig.dm; let keys = &rig.keys;
+    let max = MAX_NODE_KB * 1024;
+    let me = 1u64;
+    let ru = cuid(case, 1);
+    let (room, _) = build_room(ru, &move |g| group_uid(case, 1, g), &simple_room(&[(me, 0, true, true)]), keys);
+    let mut rooms = HashMap::new();
+    rooms.insert(room.id, room);
+    let mut ra = RoomAuthorisations { signing_key: Ed25519SigningKey::create_from(&[40 + me as u8; 32]), rooms, max_node_size: max };
+    let id = cuid(case, 100);
+    let short = dm.short(1);
+    let old = if update {
+        let mut o = Node { id, room_id: Some(ru), cdate: BASE - 9, mdate: BASE - 5, _entity: short.clone(), _json: name_json(dm, 1, "old"), ..Default::default() };
+        o.sign(keys.sk(me)).unwrap();
+        Some(o)
+    } else { None };
+    let build = |payload: usize| -> Node {
+        let json = name_json(dm, 1, &"s".repeat(payload));
+        match &old {
+            Some(o) => { let mut n = o.clone(); n.mdate = BASE; n._json = json; n }
+            None => Node { id, room_id: Some(ru), cdate: BASE - 9, mdate: BASE, _entity: short.clone(), _json: json, ..Default::default() },
+        }
+    };
+    let signed_size = |n: &Node| -> i64 { let mut s = n.clone(); s.sign(&ra.signing_key).unwrap(); bincode::serialized_size(&s).unwrap() as i64 };
+    let base = signed_size(&build(0));
+    let node = build((target - base) as usize);
+    let mut sent = node.clone();
+    sent.sign(&ra.signing_key).unwrap();
+    let real = bincode::serialized_size(&sent).unwrap() as i64;
+    assert_eq!(real, target);
+    let ie = InsertEntity { name: ent_name(1),
+        node_to_mutate: NodeToMutate { id, date: BASE, entity: ent_name(1), room_id: Some(ru), node: Some(node), old_node: old.clone(), ..Default::default() },
+        ..Default::default() };
+    let mut mq = mutation_query(rig, vec![ie], BASE);
+    verif_clock::set(BASE);
+    let (local, reported) = match ra.validate_mutation(&mut mq) { Ok(_) => (0, -1), Err(DbError::NodeTooBig(sz, _)) => (3, sz as i64), Err(e) => (verdict(&e), -1) };
+    verif_clock::clear();
+    let nti = NodeToInsert { id, node: Some(sent.clone()), entity_name: Some(ent_name(1)), old_room_id: old.as_ref().and_then(|o| o.room_id),
+        old_mdate: old.as_ref().map(|o| o.mdate).unwrap_or(0), old_verifying_key: old.as_ref().map(|o| o.verifying_key.clone()), ..Default::default() };
+    let peer = ra.validate_node(&nti) as i64;
+    let srow = format!("{{| sr_room := true; sr_ent_len := {}; sr_json_len := {}; sr_bin_len := None; sr_key_len := {}; sr_sig_len := {} |}}",
+        gn(sent._entity.len() as u64), gopt(&sent._json.as_ref().map(|j| gn(j.len() as u64))), gn(sent.verifying_key.len() as u64), gn(sent._signature.len() as u64));
+    Case { kind: "size".into(), coq: format!("CSize {} {} {}", gn(max), gb(update), srow), obs: vec![local, reported, peer, real],
+        meta: json!({"signed_size": real, "max": max, "update": update, "local": local, "peer": peer}) }
 }
 
 // ------------------------------------------------------------------ deletions
@@ -372,6 +437,15 @@ async fn main() {
         out.push(Case { kind: "directed".into(), coq: format!("CWrite {} {} {} {} {}", defs_coq(&w.defs), rig.dm.coq(), gn(1), head_coq(&h, &[2, 1]), gn(1)),
             obs, meta: json!({"what": "repaired (25ca1a0): removal of another author's reference inside a mutation is refused locally"}) });
     }
+    // rows at the size limit: every signed size from max-130 to max+130, creations and updates
+    let max = (MAX_NODE_KB * 1024) as i64;
+    for update in [false, true] {
+        for target in (max - 130)..=(max + 130) {
+            case += 1;
+            out.push(case_size(&rig, case, update, target));
+        }
+    }
+    let n = n + out.n;
     while out.n < n {
         case += 1;
         let mut r = rng.fork();
